@@ -29,13 +29,16 @@ Proof. intros H. apply negb_false_iff in H. apply Nat.ltb_lt. exact H. Qed.
 Definition isP01 (p : spc) : bool := match p with P0 | P1 => true | _ => false end.
 Definition tearing (p : spc) : bool := match p with P2 | P3 | P4 | PRet true | PCrash => true | _ => false end.
 Definition after_p3 (p : spc) : bool := match p with P4 | PRet true => true | _ => false end.
+Definition after_p2 (p : spc) : bool := match p with P3 | P4 | PRet true => true | _ => false end.
 Definition wp_left (t : sess) : bool := match wp t with WLeft | WDone => true | _ => false end.
 
 Record SInv (t : sess) : Prop := mkSInv {
   s_rel : rel t = true -> wp t = WDone;
   s_left : wp_left t = true -> cconn t = true /\ sock t = true;
   s_done : wp t = WDone -> reg t = false;
-  s_closing : wp t = WClosing -> cconn t = true /\ sock t = true
+  s_closing : wp t = WClosing -> cconn t = true /\ sock t = true;
+  s_unreg : reg t = false -> cconn t = true;
+  s_done_rel : wp t = WDone -> rel t = true
 }.
 
 Record Inv (s : st) : Prop := mkInv {
@@ -46,7 +49,9 @@ Record Inv (s : st) : Prop := mkInv {
   i_p3 : forall k, k < length (stops s) -> after_p3 (getP s k) = true -> forall i, i < length (ss s) -> rel (getS s i) = true;
   i_ret : forall k b, k < length (stops s) -> getP s k = PRet b -> done s = true;
   i_ss : forall i, i < length (ss s) -> SInv (getS s i);
-  i_hs : forall j, j < length (hs s) -> getK s j <> KRefused true
+  i_hs : forall j, j < length (hs s) -> getK s j <> KRefused true;
+  i_p2 : forall k, k < length (stops s) -> after_p2 (getP s k) = true -> forall i, i < length (ss s) -> cconn (getS s i) = true;
+  i_nopc : forall k, k < length (stops s) -> getP s k <> PCrash
 }.
 
 Lemma inv_init : Inv init.
@@ -57,18 +62,21 @@ Ltac crack H :=
   | (if ?x then _ else _) = Some _ => destruct x eqn:?; try discriminate H
   | match ?x with _ => _ end = Some _ => destruct x eqn:?; try discriminate H
   end.
-Ltac dI I := destruct I as [j_nc j_cmgr j_uniq j_quit j_p3 j_ret j_ss j_hs].
+Ltac dI I := destruct I as [j_nc j_cmgr j_uniq j_quit j_p3 j_ret j_ss j_hs j_p2 j_nopc].
 
 (* a step which changes one session only *)
-Lemma inv_setS s i f : Inv s -> i < length (ss s) -> SInv (f (getS s i)) -> (rel (getS s i) = true -> rel (f (getS s i)) = true) -> Inv (setS s i f).
+Lemma inv_setS s i f : Inv s -> i < length (ss s) -> SInv (f (getS s i)) -> (rel (getS s i) = true -> rel (f (getS s i)) = true) ->
+  (cconn (getS s i) = true -> cconn (f (getS s i)) = true) -> Inv (setS s i f).
 Proof.
-  intros I Hi HS HR. dI I.
+  intros I Hi HS HR HC. dI I.
   assert (GS : forall i', getS (setS s i f) i' = if Nat.eqb i i' then f (getS s i') else getS s i').
   { intros i'. unfold getS, setS. cbn. apply nth_upd. exact Hi. }
   constructor; auto.
   - intros k Hk A i' Hi'. unfold setS in Hi'. cbn in Hi'. rewrite upd_length in Hi'. rewrite GS. specialize (j_p3 k Hk A i' Hi').
     destruct (Nat.eqb_spec i i'); auto. subst. auto.
   - intros i' Hi'. unfold setS in Hi'. cbn in Hi'. rewrite upd_length in Hi'. rewrite GS. destruct (Nat.eqb_spec i i'); auto. subst. auto.
+  - intros k Hk A i' Hi'. unfold setS in Hi'. cbn in Hi'. rewrite upd_length in Hi'. rewrite GS. specialize (j_p2 k Hk A i' Hi').
+    destruct (Nat.eqb_spec i i'); auto. subst. auto.
 Qed.
 
 Ltac pre H := unfold step in H; crack H; injection H as <-;
@@ -81,11 +89,12 @@ Lemma step_sess s s' l : Inv s -> step good s l = Some s' ->
   match l with LNet _ | LSockDie _ | LRp _ | LHand _ | LWpCwp _ | LWpErr _ | LWpCconn _ _ | LWpClosed _ | LWpAfter _ | LHr _ | LRevoke _ => True | _ => False end -> Inv s'.
 Proof.
   intros I H L. destruct l; try contradiction; pre H.
-  all: match goal with Hi : ?i < length (ss _) |- _ => apply inv_setS; auto; destruct (i_ss _ I i Hi) as [A B C D]; unfold wp_leave; cbn; auto end.
+  all: match goal with Hi : ?i < length (ss _) |- _ => apply inv_setS; auto; destruct (i_ss _ I i Hi) as [A B C D U DR]; unfold wp_leave; cbn; auto end.
   all: try (constructor; unfold wp_left in *; cbn; intros; repeat match goal with H : wp _ = _ |- _ => rewrite H in * | H : rp _ = _ |- _ => rewrite H in * end; try discriminate; try congruence; auto).
   all: try (match goal with H : rel _ = true, A : rel _ = true -> _ |- _ => specialize (A H); discriminate end).
   all: try (match goal with H : match wp _ with _ => _ end = true, B : match wp _ with _ => _ end = true -> _ |- _ => destruct (B H); split; auto end).
   all: try (match goal with D : ?x = ?x -> _ /\ _ |- _ => destruct (D eq_refl); split; auto end).
+  all: try (match goal with B : true = true -> _ /\ _ |- _ => destruct (B eq_refl); auto end).
 Qed.
 
 Lemma step_serve_api s s' l : Inv s -> step good s l = Some s' -> match l with LServe | LApi _ => True | _ => False end -> Inv s'.
@@ -105,15 +114,16 @@ Proof. revert i; induction l as [|x r IH]; intros [|i] H; simpl in *; try lia; a
 
 Lemma inv_setP s s1 k p' : Inv s -> k < length (stops s) ->
   stops s1 = stops s -> hs s1 = hs s -> crashed s1 = crashed s -> length (ss s1) = length (ss s) ->
-  (forall i, i < length (ss s) -> SInv (getS s1 i) /\ (rel (getS s i) = true -> rel (getS s1 i) = true)) ->
+  (forall i, i < length (ss s) -> SInv (getS s1 i) /\ (rel (getS s i) = true -> rel (getS s1 i) = true) /\ (cconn (getS s i) = true -> cconn (getS s1 i) = true)) ->
+  (after_p2 p' = true -> forall i, i < length (ss s) -> cconn (getS s1 i) = true) ->
   (cmgr s1 = true -> isP01 p' = true /\ cmgr s = true) ->
   (tearing p' = true -> tearing (getP s k) = true \/ (forall k', k' < length (stops s) -> k' <> k -> tearing (getP s k') = false)) ->
   (quit s = true -> quit s1 = true) -> (p' <> P0 -> quit s1 = true) ->
   (after_p3 p' = true -> forall i, i < length (ss s) -> rel (getS s i) = true) ->
-  (done s = true -> done s1 = true) -> (forall b, p' = PRet b -> done s1 = true) ->
+  (done s = true -> done s1 = true) -> (forall b, p' = PRet b -> done s1 = true) -> p' <> PCrash ->
   Inv (setP s1 k p').
 Proof.
-  intros I HK E1 E2 E3 E4 HS C1 C2 C3 C4 C5 C6 C7. dI I.
+  intros I HK E1 E2 E3 E4 HS CP2 C1 C2 C3 C4 C5 C6 C7 C8. dI I.
   assert (GP : forall k', getP (setP s1 k p') k' = if Nat.eqb k k' then p' else getP s k').
   { intros k'. rewrite getP_setP by (rewrite E1; auto). unfold getP. rewrite E1. reflexivity. }
   assert (LP : length (stops (setP s1 k p')) = length (stops s)) by (unfold setP; cbn; rewrite upd_length, E1; auto).
@@ -128,24 +138,27 @@ Proof.
     + apply j_uniq; auto.
   - intros k' Hk'. rewrite LP in Hk'. rewrite GP. change (quit (setP s1 k p')) with (quit s1). destruct (Nat.eqb_spec k k'); auto. intros X. apply C3. eapply j_quit; eauto.
   - intros k' Hk' A i Hi. rewrite LP in Hk'. change (length (ss (setP s1 k p'))) with (length (ss s1)) in Hi. rewrite E4 in Hi. rewrite GP in A. rewrite GSs.
-    destruct (HS i Hi) as [_ R]. apply R. destruct (Nat.eqb_spec k k'); [apply C5; auto | eapply j_p3; eauto].
+    destruct (HS i Hi) as (_ & R & _). apply R. destruct (Nat.eqb_spec k k'); [apply C5; auto | eapply j_p3; eauto].
   - intros k' b Hk'. rewrite LP in Hk'. rewrite GP. change (done (setP s1 k p')) with (done s1). destruct (Nat.eqb_spec k k'); [apply C7 | intros X; apply C6; eapply j_ret; eauto].
   - intros i Hi. change (length (ss (setP s1 k p'))) with (length (ss s1)) in Hi. rewrite E4 in Hi. rewrite GSs. apply HS; auto.
   - intros j Hj. change (length (hs (setP s1 k p'))) with (length (hs s1)) in Hj. rewrite E2 in Hj. rewrite GK. apply j_hs; auto.
+  - intros k' Hk' A i Hi. rewrite LP in Hk'. change (length (ss (setP s1 k p'))) with (length (ss s1)) in Hi. rewrite E4 in Hi. rewrite GP in A. rewrite GSs.
+    destruct (Nat.eqb_spec k k'); [apply CP2; auto | destruct (HS i Hi) as (_ & _ & R); apply R; eapply j_p2; eauto].
+  - intros k' Hk'. rewrite LP in Hk'. rewrite GP. destruct (Nat.eqb_spec k k'); auto.
 Qed.
 
 Lemma step_stop s s' k : Inv s -> step good s (LStop k) = Some s' -> Inv s'.
 Proof.
   intros I H. pose proof I as I0. dI I0. unfold step in H. destruct (crashed s) eqn:CR; [discriminate|].
   destruct (negb (Nat.ltb k (length (stops s)))) eqn:HK; [discriminate|]. apply negb_ltb in HK.
-  assert (SS : forall i, i < length (ss s) -> SInv (getS s i) /\ (rel (getS s i) = true -> rel (getS s i) = true)) by (intros; split; auto).
+  assert (SS : forall i, i < length (ss s) -> SInv (getS s i) /\ (rel (getS s i) = true -> rel (getS s i) = true) /\ (cconn (getS s i) = true -> cconn (getS s i) = true)) by (intros i Hi; split; [apply j_ss; auto | split; auto]).
   destruct (getP s k) eqn:E; try discriminate.
-  - (* P0 *) injection H as <-. apply (inv_setP s); auto; cbn; try discriminate; try congruence; auto.
+  - (* P0 *) injection H as <-. apply (inv_setP s); auto; cbn; try discriminate; try congruence; auto; try (intros; discriminate).
   - (* P1 *) destruct (cmgr s) eqn:CM.
-    + injection H as <-. apply (inv_setP s); auto; cbn; try discriminate; try congruence; auto.
+    + injection H as <-. apply (inv_setP s); auto; cbn; try discriminate; try congruence; auto; try (intros; discriminate).
       * intros _. right. intros k' Hk' _. specialize (j_cmgr eq_refl k' Hk'). destruct (getP s k'); try discriminate; reflexivity.
       * intros _. apply (j_quit k HK). rewrite E. discriminate.
-    + cbn in H. injection H as <-. apply (inv_setP s); auto; cbn; try discriminate; try congruence; auto.
+    + cbn in H. injection H as <-. apply (inv_setP s); auto; cbn; try discriminate; try congruence; auto; try (intros; discriminate).
       * intros _. apply (j_quit k HK). rewrite E. discriminate.
   - (* P2 *) injection H as <-.
     assert (CMF : cmgr s = false). { destruct (cmgr s) eqn:CM; auto. specialize (j_cmgr eq_refl k HK). rewrite E in j_cmgr. discriminate. }
@@ -153,19 +166,24 @@ Proof.
     + rewrite map_length. auto.
     + intros i Hi. unfold getS. cbn.
       rewrite nth_map_lt by auto.
-      fold (getS s i). destruct (j_ss i Hi) as [A B C D]. destruct (reg (getS s i)); split; auto; try (constructor; auto).
+      fold (getS s i). destruct (j_ss i Hi) as [A B C D U DR]. destruct (reg (getS s i)) eqn:RG; (split; [|split; auto]); auto; try (constructor; auto).
+
       * unfold wp_left; cbn. intros X. destruct (B X). auto.
       * cbn. intros X. exfalso. specialize (C X). discriminate.
       * cbn. intros X. destruct (D X). auto.
+    + intros _ i Hi. unfold getS. cbn. rewrite nth_map_lt by auto. fold (getS s i). destruct (j_ss i Hi) as [A B C D U DR].
+      destruct (reg (getS s i)) eqn:RG; cbn; auto.
     + intros _. left. rewrite E. reflexivity.
     + intros _. apply (j_quit k HK). rewrite E. discriminate.
   - (* P3 *) cbn in H. destruct (forallb rel (ss s)) eqn:FR; [|discriminate]. injection H as <-.
     apply (inv_setP s); auto; cbn; try discriminate; try congruence; auto.
+    + intros _. apply (j_p2 k HK). rewrite E. reflexivity.
     + intros X. rewrite X in *. specialize (j_cmgr eq_refl k HK). rewrite E in j_cmgr. discriminate.
     + intros _. left. rewrite E. reflexivity.
     + intros _. apply (j_quit k HK). rewrite E. discriminate.
     + intros _ i Hi. rewrite (forallb_nth _ _ (mkSess RExit WDone HExit false true true true true)) in FR. apply FR. auto.
   - (* P4 *) injection H as <-. apply (inv_setP s); auto; cbn; try discriminate; try congruence; auto.
+    + intros _. apply (j_p2 k HK). rewrite E. reflexivity.
     + intros X. rewrite X in *. specialize (j_cmgr eq_refl k HK). rewrite E in j_cmgr. discriminate.
     + intros _. left. rewrite E. reflexivity.
     + intros _. apply (j_quit k HK). rewrite E. discriminate.
@@ -184,6 +202,8 @@ Proof.
   - intros k Hk. destruct (K k Hk) as [X| ->]; [rewrite GP by auto; apply j_quit; auto | rewrite GL; congruence].
   - intros k Hk. destruct (K k Hk) as [X| ->]; [rewrite GP by auto; apply j_p3; auto | rewrite GL; discriminate].
   - intros k b Hk. destruct (K k Hk) as [X| ->]; [rewrite GP by auto; apply j_ret; auto | rewrite GL; discriminate].
+  - intros k Hk. destruct (K k Hk) as [X| ->]; [rewrite GP by auto; apply j_p2; auto | rewrite GL; discriminate].
+  - intros k Hk. destruct (K k Hk) as [X| ->]; [rewrite GP by auto; apply j_nopc; auto | rewrite GL; discriminate].
 Qed.
 
 Lemma getK_setK s j p j' : j < length (hs s) -> getK (setK s j p) j' = if Nat.eqb j j' then p else getK s j'.
@@ -217,11 +237,13 @@ Proof.
         assert (NT : forall k, k < length (stops s) -> after_p3 (getP s k) = false).
         { intros k Hk. specialize (j_cmgr eq_refl k Hk). destruct (getP s k); try discriminate; reflexivity. }
         assert (I1 : Inv (s <| ss := ss s ++ [sess0] |>)).
-        { constructor; try (exact CR || exact j_uniq || exact j_quit || exact j_ret || exact j_hs).
+        { constructor; try (exact CR || exact j_uniq || exact j_quit || exact j_ret || exact j_hs || exact j_nopc).
           - intros _. exact (j_cmgr eq_refl).
           - intros k Hk A. change (getP (s <| ss := ss s ++ [sess0] |>) k) with (getP s k) in A. change (length (stops (s <| ss := ss s ++ [sess0] |>))) with (length (stops s)) in Hk. rewrite NT in A by auto. discriminate.
           - intros i Hi. cbn in Hi. rewrite app_length in Hi. cbn in Hi. unfold getS. cbn.
-            destruct (Nat.eq_dec i (length (ss s))) as [->|Hne]; [rewrite nth_app_last; constructor; cbn; intros; try discriminate | rewrite nth_app_old by lia; apply j_ss; lia]. }
+            destruct (Nat.eq_dec i (length (ss s))) as [->|Hne]; [rewrite nth_app_last; constructor; cbn; intros; try discriminate | rewrite nth_app_old by lia; apply j_ss; lia].
+          - intros k Hk A. exfalso. change (getP (s <| ss := ss s ++ [sess0] |>) k) with (getP s k) in A. change (length (stops (s <| ss := ss s ++ [sess0] |>))) with (length (stops s)) in Hk.
+            specialize (j_cmgr eq_refl k Hk). destruct (getP s k); discriminate. }
         apply inv_setK; auto. discriminate.
       * injection H as <-. apply inv_setK; auto. discriminate.
     + cbn in H. injection H as <-. apply inv_setK; auto. discriminate.
@@ -290,4 +312,229 @@ Theorem api_after_stop_returns : forall ls a, let s := exec good init ls in step
 Proof.
   intros ls a s. pose proof (i_nc _ (inv_exec ls init inv_init)) as NC. fold s in NC.
   unfold step. rewrite NC. cbn. rewrite orb_true_r. reflexivity.
+Qed.
+
+(* ---- Stop returns: bounded escape ---- *)
+Definition sess_escape (i : nat) (t : sess) : list lab :=
+  match wp t with
+  | WSel => [LWpCconn i true; LWpClosed i; LWpAfter i]
+  | WClosing => [LWpClosed i; LWpAfter i]
+  | WLeft => [LWpAfter i]
+  | WDone => [] end.
+
+(* what a schedule which only runs session steps leaves alone *)
+Record SameBut (s s' : st) : Prop := mkSame {
+  sb_len : length (ss s') = length (ss s);
+  sb_stops : stops s' = stops s;
+  sb_hs : hs s' = hs s;
+  sb_cr : crashed s' = crashed s;
+  sb_cmgr : cmgr s' = cmgr s;
+  sb_quit : quit s' = quit s;
+  sb_done : done s' = done s
+}.
+Lemma SameBut_refl s : SameBut s s. Proof. constructor; auto. Qed.
+Lemma SameBut_trans a b c : SameBut a b -> SameBut b c -> SameBut a c.
+Proof. intros [] []. constructor; congruence. Qed.
+Lemma SameBut_setS s i f : SameBut s (setS s i f).
+Proof. constructor; auto. unfold setS; cbn. apply upd_length. Qed.
+
+Lemma getS_setS s i f j : i < length (ss s) -> getS (setS s i f) j = if Nat.eqb i j then f (getS s j) else getS s j.
+Proof. intros H. unfold getS, setS. cbn. apply nth_upd. exact H. Qed.
+
+Lemma exec_app c s a b : exec c s (a ++ b) = exec c (exec c s a) b.
+Proof. revert s; induction a as [|l r IH]; intros s; cbn; auto. destruct (step c s l); auto. Qed.
+
+Definition Only (i : nat) (s s' : st) : Prop := (forall j, j <> i -> getS s' j = getS s j) /\ SameBut s s'.
+Lemma Only_trans i a b c : Only i a b -> Only i b c -> Only i a c.
+Proof. intros [A1 A2] [B1 B2]. split; [intros j Hj; rewrite B1, A1; auto | eapply SameBut_trans; eauto]. Qed.
+Lemma Only_setS s i f : i < length (ss s) -> Only i s (setS s i f).
+Proof. intros H. split; [|apply SameBut_setS]. intros j Hj. rewrite getS_setS by auto. destruct (Nat.eqb_spec i j); congruence. Qed.
+
+Lemma run_after s i : crashed s = false -> i < length (ss s) -> wp (getS s i) = WLeft ->
+  let s' := exec good s [LWpAfter i] in rel (getS s' i) = true /\ Only i s s'.
+Proof.
+  intros CR Hi W. assert (L : Nat.ltb i (length (ss s)) = true) by (apply Nat.ltb_lt; auto).
+  cbn. unfold step. rewrite CR, L. cbn. rewrite W. split; [|apply Only_setS; auto].
+  rewrite getS_setS by auto. rewrite Nat.eqb_refl. reflexivity.
+Qed.
+
+Lemma run_closed s i : crashed s = false -> i < length (ss s) -> wp (getS s i) = WClosing ->
+  let s' := exec good s [LWpClosed i; LWpAfter i] in rel (getS s' i) = true /\ Only i s s'.
+Proof.
+  intros CR Hi W. assert (L : Nat.ltb i (length (ss s)) = true) by (apply Nat.ltb_lt; auto).
+  change [LWpClosed i; LWpAfter i] with ([LWpClosed i] ++ [LWpAfter i]). cbv zeta. rewrite exec_app.
+  assert (E : exec good s [LWpClosed i] = setS s i (wp_leave good)). { cbn. unfold step. rewrite CR, L. cbn. rewrite W. reflexivity. }
+  rewrite E. destruct (run_after (setS s i (wp_leave good)) i) as [R O]; auto.
+  - unfold setS; cbn. rewrite upd_length. auto.
+  - rewrite getS_setS by auto. rewrite Nat.eqb_refl. reflexivity.
+  - split; auto. eapply Only_trans; [apply Only_setS; auto | exact O].
+Qed.
+
+Lemma run_sel s i : crashed s = false -> i < length (ss s) -> wp (getS s i) = WSel -> cconn (getS s i) = true ->
+  let s' := exec good s [LWpCconn i true; LWpClosed i; LWpAfter i] in rel (getS s' i) = true /\ Only i s s'.
+Proof.
+  intros CR Hi W CC. assert (L : Nat.ltb i (length (ss s)) = true) by (apply Nat.ltb_lt; auto).
+  change [LWpCconn i true; LWpClosed i; LWpAfter i] with ([LWpCconn i true] ++ [LWpClosed i; LWpAfter i]). cbv zeta. rewrite exec_app.
+  assert (E : exec good s [LWpCconn i true] = setS s i (fun t => t <| wp := WClosing |> <| sock := true |>)).
+  { cbn. unfold step. rewrite CR, L. cbn. rewrite W, CC. reflexivity. }
+  rewrite E. destruct (run_closed (setS s i (fun t => t <| wp := WClosing |> <| sock := true |>)) i) as [R O]; auto.
+  - unfold setS; cbn. rewrite upd_length. auto.
+  - rewrite getS_setS by auto. rewrite Nat.eqb_refl. reflexivity.
+  - split; auto. eapply Only_trans; [apply Only_setS; auto | exact O].
+Qed.
+
+Lemma sess_escape_ok s i : crashed s = false -> i < length (ss s) -> SInv (getS s i) -> cconn (getS s i) = true ->
+  let s' := exec good s (sess_escape i (getS s i)) in rel (getS s' i) = true /\ Only i s s'.
+Proof.
+  intros CR Hi SI CC. unfold sess_escape. destruct (wp (getS s i)) eqn:W.
+  - apply run_sel; auto.
+  - apply run_closed; auto.
+  - apply run_after; auto.
+  - cbn. split; [apply (s_done_rel _ SI W) | split; [auto | apply SameBut_refl]].
+Qed.
+
+Fixpoint esc_all (n : nat) (s : st) : list lab :=
+  match n with 0 => [] | S m => esc_all m s ++ sess_escape m (getS s m) end.
+
+Lemma esc_all_ok n : forall s, crashed s = false -> n <= length (ss s) ->
+  (forall i, i < length (ss s) -> SInv (getS s i) /\ cconn (getS s i) = true) ->
+  let s' := exec good s (esc_all n s) in
+  (forall i, i < n -> rel (getS s' i) = true) /\ (forall j, n <= j -> getS s' j = getS s j) /\ SameBut s s'.
+Proof.
+  induction n as [|m IH]; intros s CR Hn HS; cbn.
+  - split; [|split]; auto; try (intros; lia). apply SameBut_refl.
+  - rewrite exec_app. destruct (IH s CR ltac:(lia) HS) as (R1 & U1 & S1). set (s1 := exec good s (esc_all m s)) in *.
+    assert (Em : getS s1 m = getS s m) by (apply U1; lia). rewrite <- Em.
+    destruct (HS m ltac:(lia)) as [SI CC].
+    destruct (sess_escape_ok s1 m) as [R2 [O2 S2]].
+    + rewrite (sb_cr _ _ S1). exact CR.
+    + rewrite (sb_len _ _ S1). lia.
+    + rewrite Em. exact SI.
+    + rewrite Em. exact CC.
+    + split; [|split].
+      * intros i Hi. destruct (Nat.eq_dec i m) as [->|Hne]; auto. rewrite O2 by auto. apply R1. lia.
+      * intros j Hj. rewrite O2 by lia. apply U1. lia.
+      * eapply SameBut_trans; eauto.
+Qed.
+
+Lemma esc_all_length n s : length (esc_all n s) <= 3 * n.
+Proof.
+  induction n as [|m IH]; cbn; auto. rewrite app_length. unfold sess_escape. destruct (wp (getS s m)); cbn; lia.
+Qed.
+
+Definition is_pump (l : lab) : Prop := match l with LWpCconn _ true | LWpClosed _ | LWpAfter _ => True | _ => False end.
+Lemma esc_all_pump n s : Forall is_pump (esc_all n s).
+Proof.
+  induction n as [|m IH]; cbn; auto. apply Forall_app. split; auto. unfold sess_escape. destruct (wp (getS s m)); repeat constructor.
+Qed.
+
+(* one step of Stop k, when it is enabled *)
+Definition adv (s : st) (k : nat) : st := exec good s [LStop k].
+Lemma adv_spec s k : crashed s = false -> k < length (stops s) ->
+  crashed (adv s k) = false /\ length (stops (adv s k)) = length (stops s) /\ length (ss (adv s k)) = length (ss s) /\
+  match getP s k with
+  | P0 => getP (adv s k) k = P1
+  | P1 => getP (adv s k) k = P2 \/ getP (adv s k) k = PRet false
+  | P2 => getP (adv s k) k = P3
+  | P3 => (forallb rel (ss s) = true -> getP (adv s k) k = P4) /\ (getP (adv s k) k = P3 \/ getP (adv s k) k = P4)
+  | P4 => getP (adv s k) k = PRet true
+  | p => getP (adv s k) k = p
+  end.
+Proof.
+  intros CR Hk. assert (L : Nat.ltb k (length (stops s)) = true) by (apply Nat.ltb_lt; auto).
+  assert (LP : forall s1 p, stops s1 = stops s -> length (stops (setP s1 k p)) = length (stops s)) by (intros s1 p X; unfold setP; cbn; rewrite upd_length, X; auto).
+  assert (GP : forall s1 p, stops s1 = stops s -> getP (setP s1 k p) k = p) by (intros s1 p X; rewrite getP_setP by (rewrite X; auto); rewrite Nat.eqb_refl; auto).
+  unfold adv, exec. unfold step. rewrite CR, L. cbn [negb].
+  destruct (getP s k) eqn:E.
+  - rewrite GP, LP by reflexivity. repeat split; auto.
+  - destruct (cmgr s); cbn [stop_again good]; rewrite GP, LP by reflexivity; repeat split; auto.
+  - rewrite GP, LP by reflexivity. repeat split; auto. unfold setP; cbn. apply map_length.
+  - cbn [stop_waits good negb orb]. destruct (forallb rel (ss s)) eqn:F.
+    + rewrite GP, LP by reflexivity. repeat split; auto.
+    + rewrite E. repeat split; auto. discriminate.
+  - rewrite GP, LP by reflexivity. repeat split; auto.
+  - rewrite E. auto.
+  - rewrite E. auto.
+Qed.
+
+Lemma exec_cons c s l r : exec c s (l :: r) = exec c (exec c s [l]) r.
+Proof. cbn. destruct (step c s l); reflexivity. Qed.
+
+Lemma pump_same s l : is_pump l -> SameBut s (exec good s [l]).
+Proof.
+  intros P. cbn. destruct (step good s l) eqn:E; [|apply SameBut_refl].
+  destruct l; try contradiction; try (destruct ok; try contradiction); unfold step in E;
+    repeat match type of E with
+    | (if ?x then _ else _) = Some _ => destruct x; try discriminate E
+    | match ?x with _ => _ end = Some _ => destruct x; try discriminate E end; injection E as <-; apply SameBut_setS.
+Qed.
+Lemma pumps_same ls : forall s, Forall is_pump ls -> SameBut s (exec good s ls).
+Proof.
+  induction ls as [|l r IH]; intros s F; [apply SameBut_refl|]. inversion F as [|? ? Hl Hr]; subst. rewrite exec_cons.
+  eapply SameBut_trans; [apply pump_same; exact Hl | apply IH; exact Hr].
+Qed.
+
+Theorem stop_escapes s k : Inv s -> k < length (stops s) ->
+  let s3 := exec good s [LStop k; LStop k; LStop k] in
+  let hl := [LStop k; LStop k; LStop k] ++ esc_all (length (ss s3)) s3 ++ [LStop k; LStop k] in
+  (exists b, getP (exec good s hl) k = PRet b) /\ length hl <= 5 + 3 * length (ss s).
+Proof.
+  intros I Hk s3 hl.
+  pose proof (i_nc _ I) as CR. pose proof (i_nopc _ I k Hk) as NPC.
+  assert (E3 : s3 = adv (adv (adv s k) k) k). { unfold s3, adv. rewrite exec_cons. rewrite (exec_cons good _ (LStop k) [LStop k]). reflexivity. }
+  destruct (adv_spec s k CR Hk) as (C1 & L1 & N1 & Q1). set (s1 := adv s k) in *.
+  assert (Hk1 : k < length (stops s1)) by lia.
+  destruct (adv_spec s1 k C1 Hk1) as (C2 & L2 & N2 & Q2). set (s2 := adv s1 k) in *.
+  assert (Hk2 : k < length (stops s2)) by lia.
+  destruct (adv_spec s2 k C2 Hk2) as (C3 & L3 & N3 & Q3). rewrite <- E3 in *.
+  assert (Hk3 : k < length (stops s3)) by lia.
+  assert (PC : getP s3 k = P3 \/ getP s3 k = P4 \/ exists b, getP s3 k = PRet b).
+  { destruct (getP s k) eqn:G0; try contradiction.
+    - rewrite Q1 in Q2. destruct Q2 as [Q2|Q2]; rewrite Q2 in Q3; eauto.
+    - destruct Q1 as [Q1|Q1]; rewrite Q1 in Q2; rewrite Q2 in Q3; [destruct Q3 as [_ [X|X]]; auto | eauto].
+    - rewrite Q1 in Q2. destruct Q2 as [_ [Q2|Q2]]; rewrite Q2 in Q3; [destruct Q3 as [_ [X|X]]; auto | eauto].
+    - destruct Q1 as [_ [Q1|Q1]]; rewrite Q1 in Q2; [destruct Q2 as [_ [Q2|Q2]]; rewrite Q2 in Q3; [destruct Q3 as [_ [X|X]]; auto | eauto] | rewrite Q2 in Q3; eauto].
+    - rewrite Q1 in Q2. rewrite Q2 in Q3. eauto.
+    - rewrite Q1 in Q2. rewrite Q2 in Q3. eauto. }
+  (* the state after them is reachable, so the invariant holds *)
+  assert (I3 : Inv s3) by (apply inv_exec; exact I).
+  set (n := length (ss s3)) in *.
+  assert (PS : SameBut s3 (exec good s3 (esc_all n s3))) by (apply pumps_same; apply esc_all_pump).
+  set (s4 := exec good s3 (esc_all n s3)) in *.
+  assert (G4 : getP s4 k = getP s3 k) by (unfold getP; rewrite (sb_stops _ _ PS); auto).
+  assert (C4 : crashed s4 = false) by (rewrite (sb_cr _ _ PS); auto).
+  assert (Hk4 : k < length (stops s4)) by (rewrite (sb_stops _ _ PS); auto).
+  assert (EX : exec good s hl = adv (adv s4 k) k).
+  { unfold hl. rewrite exec_app. fold s3. rewrite exec_app. fold s4. unfold adv. rewrite exec_cons. reflexivity. }
+  split.
+  - rewrite EX.
+    destruct (adv_spec s4 k C4 Hk4) as (C5 & L5 & N5 & P5). set (s5 := adv s4 k) in *.
+    assert (Hk5 : k < length (stops s5)) by lia.
+    destruct (adv_spec s5 k C5 Hk5) as (C6 & L6 & N6 & P6).
+    rewrite G4 in P5.
+    assert (AR : getP s3 k = P3 \/ getP s3 k = P4 -> forallb rel (ss s4) = true).
+    { intros X. assert (A2 : after_p2 (getP s3 k) = true) by (destruct X as [X|X]; rewrite X; reflexivity).
+      destruct (esc_all_ok n s3 C3 (Nat.le_refl _)) as (R & _ & _).
+      - intros i Hi. split; [apply (i_ss _ I3 i Hi) | apply (i_p2 _ I3 k Hk3 A2 i Hi)].
+      - apply (forallb_nth _ _ (mkSess RExit WDone HExit false true true true true)). intros i Hi. fold (getS s4 i). apply R. rewrite (sb_len _ _ PS) in Hi. exact Hi. }
+    destruct PC as [X|[X|[b X]]].
+    + rewrite X in P5. destruct P5 as [P5 _]. rewrite (P5 (AR (or_introl X))) in P6. eauto.
+    + rewrite X in P5. rewrite P5 in P6. eauto.
+    + rewrite X in P5. rewrite P5 in P6. eauto.
+  - unfold hl. rewrite !app_length. cbn [length]. pose proof (esc_all_length n s3). unfold n in *. rewrite N3, N2, N1 in *. lia.
+Qed.
+
+Theorem stop_returns : forall ls k, let s := exec good init ls in k < length (stops s) ->
+  exists hl, length hl <= 5 + 3 * length (ss s) /\ Forall (fun l => l = LStop k \/ is_pump l) hl /\ exists b, getP (exec good s hl) k = PRet b.
+Proof.
+  intros ls k s Hk. pose proof (inv_exec ls init inv_init) as I. fold s in I.
+  destruct (stop_escapes s k I Hk) as [E B].
+  eexists. split; [exact B|]. split; [|exact E].
+  apply Forall_app. split; [repeat constructor; auto|]. apply Forall_app. split; [|repeat constructor; auto].
+  eapply Forall_impl; [|apply esc_all_pump]. intros l P. right. exact P.
+Qed.
+
+Theorem serve_returns : forall ls, let s := exec good init ls in done s = true -> serve s = true -> step good s LServe = Some (s <| serve := false |>).
+Proof.
+  intros ls s D V. pose proof (i_nc _ (inv_exec ls init inv_init)) as NC. fold s in NC. unfold step. rewrite NC, D, V. reflexivity.
 Qed.
